@@ -49,6 +49,7 @@ type bfact struct {
 	txIDs       []thor.Bytes32
 	anc         []thor.Bytes32 // anc[n] = id of the ancestor at height n, anc[num] = id
 	stateDigest string
+	stateRoot   thor.Bytes32
 	accounts    int
 	acct        []acctExp      // per world.accts
 	slotVals    []thor.Bytes32 // per world.slots (storage of uAddr)
